@@ -37,6 +37,7 @@ def value_shapes(maxlen):
     shapes += [('sparse_str', n) for n in (1, 2, 3)] + [('sparse_int', 2), ('sparse_empty',)]
     shapes += [('str',), ('dense_str', 2), ('sparse_strval', 2)]
     shapes += [('dense_str_last', 2), ('dense_str_mid', 3), ('tuple_str_last', 3)]      # strings not in first position
+    shapes += [('sparse_unsorted', 2), ('sparse_unsorted', 3), ('sparse_int_digits', 2)]      # mapping keys that are NOT in sorted iteration order
     shapes += [('cat',), ('dense_cat_last', 2), ('sparse_catval', 2), ('userstr_first', 2)]      # string values of a str SUBCLASS (coba's Categorical)
     return shapes
 
@@ -51,6 +52,8 @@ def render(shape, primes):
     if k == 'sparse_str': return {'k%d' % i: primes[i] for i in range(shape[1])}
     if k == 'sparse_int': return {i + 3: primes[i] for i in range(shape[1])}
     if k == 'sparse_empty': return {}
+    if k == 'sparse_unsorted': return {name: primes[i] for i, name in enumerate(['m', 'b', 'g'][:shape[1]])}
+    if k == 'sparse_int_digits': return {10: primes[0], 9: primes[1]}
     if k == 'str': return 's'
     if k == 'dense_str': return ['u', primes[0]]
     if k == 'sparse_strval': return {'k0': 'v', 'k1': primes[0]}
@@ -65,7 +68,7 @@ def render(shape, primes):
 
 
 def is_sparse_shape(shape):
-    return shape[0] in ('sparse_str', 'sparse_int', 'sparse_empty', 'str', 'dense_str', 'sparse_strval', 'dense_str_last', 'dense_str_mid', 'tuple_str_last',
+    return shape[0] in ('sparse_unsorted', 'sparse_int_digits', 'sparse_str', 'sparse_int', 'sparse_empty', 'str', 'dense_str', 'sparse_strval', 'dense_str_last', 'dense_str_mid', 'tuple_str_last',
                         'cat', 'dense_cat_last', 'sparse_catval', 'userstr_first')
 
 
@@ -135,7 +138,7 @@ class C20(Check):
                         if n == 3 and c is not None and pos not in (0, 3): continue
                         for sx in shapes:
                             for sa in shapes:
-                                heavy = ('tuple', 'sparse_int', 'sparse_empty', 'dense_str', 'dense_str_mid', 'tuple_str_last', 'dense_cat_last', 'sparse_catval', 'userstr_first')
+                                heavy = ('sparse_int_digits', 'tuple', 'sparse_int', 'sparse_empty', 'dense_str', 'dense_str_mid', 'tuple_str_last', 'dense_cat_last', 'sparse_catval', 'userstr_first')
                                 if n == 3 and (sx[0] in heavy or sa[0] in heavy): continue
                                 yield {'terms': full, 'x': list(sx), 'a': list(sa)}
         yield from self.const_cases(tier)
@@ -306,6 +309,22 @@ class C20(Check):
             by_val1 = Counter(exp.values()); by_val2 = Counter(exp2.values())
             inv1 = {v: i for i, v in exp.items() if by_val1[v] == 1}
             inv2 = {v: i for i, v in exp2.items() if by_val2[v] == 1}
+            # ... and under other feature SETS: leave one entry of a mapping-valued namespace out; every key that occurs in both encodings
+            # must name the same monomial (a key is an identity of the participating features, not a position)
+            for ns in ('x', 'a'):
+                full = kw.get(ns)
+                if not isinstance(full, dict) or len(full) < 2: continue
+                for drop in list(full):
+                    kw3 = dict(kw); kw3[ns] = {k: v for k, v in full.items() if k != drop}
+                    try: out3 = InteractionsEncoder(terms).encode(**kw3)
+                    except Exception as e:      # noqa
+                        acc.violation('encode|raises for a sub-mapping|sparse', f'{kw3}: {e!r}'); return
+                    if not isinstance(out3, dict): continue
+                    for k, v3 in out3.items():
+                        if k == 'const' or k not in got: continue
+                        if got[k] in inv1 and v3 in inv1 and inv1[got[k]] != inv1[v3]:
+                            acc.violation('encode|key names different monomials for different feature sets|sparse',
+                                          f'key {k}: {inv1[got[k]]} with all features, {inv1[v3]} without {ns}[{drop!r}]'); return
             for k, v in got.items():
                 v2 = out2.get(k)
                 if v2 is None:
